@@ -10,16 +10,17 @@ PROOF_MODULE = "Nlmodel.Proofs.C01"
 PROOF_FILES = ["Nlmodel/Proofs/C01.lean", "Nlmodel/Model/Pipeline.lean", "Nlmodel/Model/Compiler.lean",
                "Nlmodel/Model/VM.lean", "Nlmodel/Model/Resolve.lean", "Nlmodel/Spec/Eval.lean"]
 THEOREM_FILE = PROOF_FILES[0]
-LEVEL_TEXT = ("Lean theorems: (1) FORWARD SIMULATION definitional semantics => machine, proved in four stages by induction on the evaluator's fuel with no bound on program size, depth, iterations or recursion: "
+LEVEL_TEXT = ("Lean theorems: (1) FORWARD SIMULATION definitional semantics => machine, proved in five stages by induction on the evaluator's fuel with no bound on program size, depth, iterations or recursion: "
               "scalar expressions; global variables with declarations/assignment/shadowing; structured control flow (als/anders and zolang as values, stop, volgende, nested block scopes with slot reuse); "
               "FUNCTIONS (named/anonymous, first-class, recursion, parameters by position with missing/extra arguments, locals in frame slots, antwoord from any depth, fused local-constant instructions and their mirrored forms) on the flat stack with vm.rs's base-pointer arithmetic. "
               "End to end: for a program of the fragment, the bytes the compiler model emits (code generator, operand-width check, byte encoder), loaded by VM.start and run, give the value of the semantics' result / the same error kind for every large enough budget "
               "(C01_control_flow_program from SOURCE trees including the resolver, C01_function_program from resolved trees); with functions the machine may instead stop at its 65535-slot/frame limit, which the semantics does not have. "
+              "(5) HEAP VALUES at top level: floats (boxed on the machine), strings and arrays shared by reference (injective address map growing with each allocation, cell-wise heap relation), string constants copied on evaluation, indexing and index assignment with aliasing, all operators on all value kinds, all seven builtins incl. print (deep views with cycles agree), errors matched after the same printed output; C01_heap_source_program: for a parsed program passing the decidable, proved-sound fragment check the halting value's deep view and the printed output are the definitional ones. "
               "(2) the semantics is well defined: more fuel never changes a finished evaluation (whole language); more budget never changes a finished run. "
-              "Outside the proved fragment (heap values: strings, arrays, floats; builtins; nested function literals; stop/volgende under pending operands, where the property is false - finding K3) the property is decided by the correspondence: "
+              "Outside the proved fragments (heap values together with calls - collections then run; nested function literals; stop/volgende under pending operands, where the property is false - finding K3) the property is decided by the correspondence: "
               "the real eval (value, printed output, error kind) against the definitional evaluator Spec.evalProgram on bounded-exhaustive, boundary and type-directed random programs, and against the machine model (steps, stack at Halt, collections).")
 LEVEL_NOTE = ("Trusted: Lean kernel (axioms propext, Classical.choice, Quot.sound); the hand-written model is tied to the code by the correspondence only; harness/driver I/O; Rust std. "
-              "Partial: the simulation theorem covers the scalar/function fragment, not heap values and builtins; the resolver part (R1) is proved for the control-flow fragment, for functions the theorem starts from resolved trees satisfying the fragment predicate YTop.")
+              "Partial: the simulation theorem covers scalars+functions and heap values at top level, not yet heap values across calls (collections); the resolver part (R1) is proved for the control-flow fragment, for functions the theorem starts from resolved trees satisfying the fragment predicate YTop.")
 TECHNIQUE = 'Lean 4 proof (forward simulation definitional semantics => bytecode machine by induction on fuel; fuel/budget monotonicity) + differential correspondence eval vs Spec.eval vs machine model'
 RULE = ("programs: (a) bounded-exhaustive over the template grammar of checklib/enum.py, (b) type-directed "
         "random programs (checklib/gen.py) of 5-60 nodes, (c) the repository's examples/*.nl; a case is "
@@ -48,6 +49,12 @@ def cases(tier, rng):
         out.append(("random", src))
     for _ in range(600 if tier == "quick" else 15000):
         out.append(("fragment", frag_program(rng.fork())))
+    from .. import gen2
+    from . import C03
+    for _ in range(150 if tier == "quick" else 4000):
+        out.append(("fn-values", gen2.fnvalue_program(rng.fork())))
+        out.append(("nested-fn", gen2.nested_fn_program(rng.fork())))
+        out.append(("heap-shapes", C03.heap_program(rng.fork())))
     return out
 
 
